@@ -861,6 +861,18 @@ func recipeOneof(c *ctx) {
 						c.Oracle("C07", id2, false, "panic", "CopyFrom panicked")
 						continue
 					}
+					// a message branch whose attribute is known and not null (CopyTo renders every set message branch so, a
+					// zero payload included): exactly one branch attribute is known and non-null, so the oneof holds THAT
+					// branch - the normal form used below would identify a zero payload with an unset oneof
+					if act != nil && act.Shape == "obj" {
+						if a, ok := obj.Attr(act.Attr); ok && !a.Null && !a.Unknown {
+							if got := holderOf(fr.Val); got == nil || got.BranchName() != act.GoName {
+								c.Oracle("C07", id2, false, "from-holder-msg-branch:"+DescribeField(act),
+									fmt.Sprintf("holder %s: the message branch attribute %s is known and not null, read back %s (prior %s)", g, act.Attr, GVSx(got), GVSx(holderOf(prior))))
+								continue
+							}
+						}
+					}
 					if variant == 2 {
 						// exactly that branch with that (zero) value, not its normal form
 						want, got := holderOf(v), holderOf(fr.Val)
